@@ -126,8 +126,9 @@ def execute(spec, schedule=None):
             state["started"].add(self.wid)
             for i, kind in enumerate(self.w["tests"]):
                 sched.yield_point("worker.shouldStop")
+                aborted_before = state["aborted"]      # the read below spans scheduling points
                 stop = result.shouldStop
-                worker_log.append((self.wid, "shouldStop", bool(stop), state["aborted"]))
+                worker_log.append((self.wid, "shouldStop", bool(stop), aborted_before))
                 if stop:
                     return
                 if self.w["raise_after"] == i:
@@ -142,7 +143,8 @@ def execute(spec, schedule=None):
             if self.w["raise_after"] is not None and self.w["raise_after"] >= len(self.w["tests"]):
                 raise RuntimeError("runner %d broke" % self.wid)
             sched.yield_point("worker.shouldStop")
-            worker_log.append((self.wid, "shouldStop", bool(result.shouldStop), state["aborted"]))
+            aborted_before = state["aborted"]
+            worker_log.append((self.wid, "shouldStop", bool(result.shouldStop), aborted_before))
     workers = [Worker(i, w) for i, w in enumerate(spec["workers"])]
 
     def make_tests(*a):
